@@ -44,6 +44,13 @@ func hostilePrograms(r *rand.Rand) []*Program {
 	add("array-shrink", "a := [1, 2, 3, 4, 5, 6]\nout := []\nfor i, v in a { splice(a, 0, 1); out = append(out, v) }")
 	add("array-splice-all", "a := [1, 2, 3, 4]\nout := []\nfor v in a { splice(a, 0); out = append(out, v) }")
 	add("array-grow", "a := [1]\nn := 0\nfor v in a { a = append(a, v); n++ }")
+	// closures that capture themselves (a recursive local function, mutual recursion): a cycle through captured variables that every
+	// traversal and copy has to survive - these are ordinary programs
+	for _, use := range []string{"r := copy(a)", "r := string(a)", "r := a == a", "r := format(\"%v\", a)", "b := [a]; r := copy(b)", "m := {k: a}; r := copy(m)",
+		"r := immutable([a])", "r := freeze([a, {k: a}])", "r := copy(a)(3)", "r := copy(copy(a))(2)", "r := type_name(copy(a))"} {
+		add("selfref-closure: "+use, "mk := func() { f := func(n) { return n == 0 ? 0 : f(n - 1) }; return f }\na := mk()\n"+use)
+		add("mutualref-closure: "+use, "mk := func() { g := undefined; f := func(n) { return n == 0 ? 0 : g(n - 1) }; g = func(n) { return f(n) }; return f }\na := mk()\n"+use)
+	}
 	// cyclic containers
 	for _, use := range []string{"r := string(a)", "r := a == a", "r := copy(a)", "r := format(\"%v\", a)", "r := a + a", "r := freeze(a)",
 		"r := len(a)", "r := type_name(a)", "b := [a]; r := b == b", "r := a != [a]", "r := immutable(a)", "for x in a { }", "r := a[0][0][0]", "e := error(a); r := string(e)"} {
